@@ -27,51 +27,51 @@ type Job struct {
 }
 
 type Found struct {
-	Sig     string   `json:"sig"`
-	Prop    string   `json:"property"`
-	Detail  string   `json:"detail"`
-	Seed    uint64   `json:"seed"`
-	Profile string   `json:"profile"`
-	Replay  string   `json:"replay"`
-	Count   int      `json:"count"`
-	Steps   int      `json:"steps_minimised"`
-	From    int      `json:"steps_original"`
+	Sig     string `json:"sig"`
+	Prop    string `json:"property"`
+	Detail  string `json:"detail"`
+	Seed    uint64 `json:"seed"`
+	Profile string `json:"profile"`
+	Replay  string `json:"replay"`
+	Count   int    `json:"count"`
+	Steps   int    `json:"steps_minimised"`
+	From    int    `json:"steps_original"`
 }
 
 type WorkerOut struct {
-	Property   string         `json:"property"`
-	Worker     int            `json:"worker"`
-	Runs       int            `json:"runs"`
-	Steps      int            `json:"steps"`
-	WallS      float64        `json:"wall_s"`
-	SimS       float64        `json:"sim_s"`
-	Found      []*Found       `json:"found"`
-	Other      map[string]int `json:"other_property_signals"`
-	Sanity     []string       `json:"sanity"`
-	SanityRuns int            `json:"sanity_runs"`
-	Panics     []string       `json:"panics"`
-	Stats      map[string]int `json:"stats"`
-	Probes     map[string]int `json:"probes"`
-	States     []string       `json:"states"`
-	Shapes     []string       `json:"shapes"` // hashes of nontrivial history shapes
-	Nontrivial int            `json:"nontrivial_runs"`
-	Samples    []json.RawMessage `json:"samples"`
-	StoreCalls int            `json:"store_calls"`
-	EntropyDraws int          `json:"entropy_draws"`
-	FirstSeed  uint64         `json:"first_seed"`
-	LastSeed   uint64         `json:"last_seed"`
-	Exhaustive map[string]interface{} `json:"exhaustive,omitempty"`
+	Property     string                 `json:"property"`
+	Worker       int                    `json:"worker"`
+	Runs         int                    `json:"runs"`
+	Steps        int                    `json:"steps"`
+	WallS        float64                `json:"wall_s"`
+	SimS         float64                `json:"sim_s"`
+	Found        []*Found               `json:"found"`
+	Other        map[string]int         `json:"other_property_signals"`
+	Sanity       []string               `json:"sanity"`
+	SanityRuns   int                    `json:"sanity_runs"`
+	Panics       []string               `json:"panics"`
+	Stats        map[string]int         `json:"stats"`
+	Probes       map[string]int         `json:"probes"`
+	States       []string               `json:"states"`
+	Shapes       []string               `json:"shapes"` // hashes of nontrivial history shapes
+	Nontrivial   int                    `json:"nontrivial_runs"`
+	Samples      []json.RawMessage      `json:"samples"`
+	StoreCalls   int                    `json:"store_calls"`
+	EntropyDraws int                    `json:"entropy_draws"`
+	FirstSeed    uint64                 `json:"first_seed"`
+	LastSeed     uint64                 `json:"last_seed"`
+	Exhaustive   map[string]interface{} `json:"exhaustive,omitempty"`
 }
 
 type ReplayFile struct {
-	Property string   `json:"property"`
-	Sig      string   `json:"signature"`
-	Detail   string   `json:"detail"`
-	Seed     uint64   `json:"seed"`
-	LogHash  string   `json:"log_hash"`
-	Plan     *Plan    `json:"plan"`
-	Log      []string `json:"event_log"`
-	OrigSteps int     `json:"original_steps"`
+	Property  string   `json:"property"`
+	Sig       string   `json:"signature"`
+	Detail    string   `json:"detail"`
+	Seed      uint64   `json:"seed"`
+	LogHash   string   `json:"log_hash"`
+	Plan      *Plan    `json:"plan"`
+	Log       []string `json:"event_log"`
+	OrigSteps int      `json:"original_steps"`
 }
 
 func hasSig(res *Result, prop, sig string) bool {
@@ -227,8 +227,8 @@ func RunWorker(t *testing.T) {
 	deadline := start.Add(time.Duration(job.BudgetS * float64(time.Second)))
 
 	// deterministic (non-sampled) parts first: enumerations registered for the property
-	if spec != nil && spec.Enumerate != nil && job.Worker == 0 {
-		out.Exhaustive = spec.Enumerate(t, &job, out, found)
+	if spec != nil && spec.Enumerate != nil {
+		out.Exhaustive = spec.Enumerate(t, &job, out, found) // sharded across workers by case index
 	}
 
 	for i := 0; i < job.Runs && time.Now().Before(deadline); i++ {
@@ -296,7 +296,7 @@ func absorb(t *testing.T, job *Job, out *WorkerOut, found map[string]*Found, sta
 		states[s] = true
 	}
 	if res.Panic != "" {
-		out.Panics = append(out.Panics, fmt.Sprintf("seed %d: %s", plan.Seed, res.Panic))
+		out.Panics = append(out.Panics, fmt.Sprintf("seed %d (%s): %s at %s", plan.Seed, plan.Note, res.Panic, res.PanicStack))
 	}
 	if len(res.Sanity) > 0 {
 		out.SanityRuns++
